@@ -316,6 +316,10 @@ impl FsFault {
                         // the same error, but one that does not go away
                         plans.push(vec![Fault::ReadErrAlways { path: ev.path.clone(), kind: k }]);
                     }
+                    // the same failure with an unusual error *text*
+                    for k in crate::case::IO_TEXT_KINDS {
+                        plans.push(vec![Fault::ReadErr { at: ev.k, kind: k }]);
+                    }
                     plans.push(vec![Fault::Vanish { at: ev.k, target: None }]);
                 }
                 FsOp::Canon => {
@@ -594,7 +598,7 @@ impl Engine for FsFault {
         }
     }
     fn rule(&self) -> String {
-        "workloads are seeded: multi-file projects (entry + 1..5 files reached through @import/@use/@forward/meta.load-css, three syntaxes, bodies from the pinned suite's inputs and outputs) and single corpus items under each extension, as entry and as loaded file. Per workload the fault position is enumerated: every Fs operation index of the fault-free run x every applicable error kind (read_err x5 once and persistently, canon_err, vanish, vanish-after-is_file), and per delivered file torn(n) for every byte offset n (stratified for files > 256 B in the quick tier), zeroed, zero_tail, bitflip, invalid-UTF-8 byte, stale_tail; plus a 10% tail of two-fault runs; per sweep item one scenario in which a file loaded twice is rewritten between the two reads (shorter, torn, flipped or different text on the second read). In addition every single-bit flip and every typographic look-alike substitution (no-break space, en dash, curly quotes, …) of every corpus item of at most 48 bytes (thorough: 400 bytes) is delivered as an entry file. A case is non-trivial iff its fault actually fired (the call happened and was altered); distinct = distinct (workload hash, fault list) among those.".into()
+        "workloads are seeded: multi-file projects (entry + 1..5 files reached through @import/@use/@forward/meta.load-css, three syntaxes, bodies from the pinned suite's inputs and outputs) and single corpus items under each extension, as entry and as loaded file. Per workload the fault position is enumerated: every Fs operation index of the fault-free run x every applicable error kind (read_err x5 once and persistently, read_err with an unusual error text x5 [hundreds of bytes of multi-byte characters at three alignments, empty, several lines], canon_err, vanish, vanish-after-is_file), and per delivered file torn(n) for every byte offset n (stratified for files > 256 B in the quick tier), zeroed, zero_tail, bitflip, invalid-UTF-8 byte, stale_tail; plus a 10% tail of two-fault runs; per sweep item one scenario in which a file loaded twice is rewritten between the two reads (shorter, torn, flipped or different text on the second read). In addition every single-bit flip and every typographic look-alike substitution (no-break space, en dash, curly quotes, …) of every corpus item of at most 48 bytes (thorough: 400 bytes) is delivered as an entry file. A case is non-trivial iff its fault actually fired (the call happened and was altered); distinct = distinct (workload hash, fault list) among those.".into()
     }
     fn assumptions(&self) -> Vec<String> {
         vec![
